@@ -30,7 +30,7 @@ def run(ck):
     n_fail = sum(1 for ln in open(t) if '"ok":0' in ln)
     ck.ev.extra["executions"] = n_exec
     ck.ev.extra["refused_allocations"] = n_fail
-    ck.trace("fault-enumeration", "Trace_Alloc", "Trace.cfg", t, nchunks=48, boundary=lambda ln: '"Reset"' in ln,
+    ck.trace("fault-enumeration", "Trace_Alloc", "Trace.cfg", t, nchunks=16, boundary=lambda ln: '"Reset"' in ln,
              what="every allocation index of every scenario refused once / from there on, plus the fault-free run compared with the "
                   "default-allocator digest: compactCells (0-3 rounds, duplicate / reserved-bits / mixed-resolution exits), gridDisk / "
                   "gridDiskDistances (fallback or not, pentagon origins, invalid origins), areNeighborCells (shortcut / disk / invalid), "
